@@ -1,0 +1,52 @@
+//go:build verif
+
+// Contracts for the StatefulSet lister expansion, read by the verification-condition
+// generator in /verif/engine.  Comments only.
+package v1
+
+// selOK / selEmpty / selMatch: whether a set's label selector converts, is empty, matches the pod's labels
+// (uninterpreted; the objects are not modified while they are used)
+//@ spec func selOK(s *apps.StatefulSet) bool
+//@ spec func selEmpty(s *apps.StatefulSet) bool
+//@ spec func selMatch(s *apps.StatefulSet, p *v1.Pod) bool
+//@ axiom selects_def: forall s *apps.StatefulSet, p *v1.Pod :: {selects(s, p)} selects(s, p) <==> (selOK(s) && !selEmpty(s) && selMatch(s, p))
+
+//@ extern k8s.io/apimachinery/pkg/apis/meta/v1:LabelSelectorAsSelector@statefulSetLister.GetPodStatefulSets
+//@   params sel
+//@   results selector, err
+//@   pure
+//@   ensures (err == nil) == selOK(ps)
+//@   ensures err == nil ==> selector != nil
+//@ extern k8s.io/apimachinery/pkg/labels:Selector.Empty@statefulSetLister.GetPodStatefulSets
+//@   params sel
+//@   pure
+//@   ensures result == selEmpty(ps)
+//@ extern k8s.io/apimachinery/pkg/labels:Selector.Matches@statefulSetLister.GetPodStatefulSets
+//@   params sel, ls
+//@   pure
+//@   ensures result == selMatch(ps, pod)
+
+//@ extern github.com/pingcap/advanced-statefulset/client/client/listers/apps/v1:StatefulSetNamespaceLister.List
+//@   params l, selector
+//@   results ret, err
+//@   pure
+//@   ensures err == nil
+//@   ensures err == nil ==> (forall i int :: {ret[i]} 0 <= i && i < len(ret) ==> ret[i] != nil && allocated(ret[i]) && ret[i].Namespace == listerNs(l) && ret[i] == listerSet(listerNs(l), ret[i].Name))
+//@   ensures err == nil ==> (forall name string :: {listerSet(listerNs(l), name)} listerSet(listerNs(l), name) != nil ==> (exists i int :: {ret[i]} 0 <= i && i < len(ret) && ret[i] == listerSet(listerNs(l), name) && ret[i].Name == name))
+
+//@ func statefulSetLister.GetPodStatefulSets
+//@   results sets, err
+//@   requires s != nil && pod != nil
+//@   ghost var lsrc map[int]int
+//@   at call append#1 before: ghost lsrc[len(psList)] = i
+//@   ensures err != nil ==> len(sets) == 0
+//@   ensures forall i int :: {sets[i]} 0 <= i && i < len(sets) ==> sets[i] != nil && allocated(sets[i]) && sets[i].Namespace == pod.Namespace && sets[i] == listerSet(pod.Namespace, sets[i].Name) && selects(sets[i], pod)
+//@   ensures [C16] complete: pod.Labels != nil && len(pod.Labels) > 0 ==> (forall name string :: {listerSet(pod.Namespace, name)} listerSet(pod.Namespace, name) != nil && selects(listerSet(pod.Namespace, name), pod) ==> (exists i int :: {sets[i]} 0 <= i && i < len(sets) && sets[i] == listerSet(pod.Namespace, name) && sets[i].Name == name))
+//@   loop 1 "range list"
+//@     invariant forall m int :: {psList[m]} 0 <= m && m < len(psList) ==> psList[m] != nil && allocated(psList[m]) && psList[m].Namespace == pod.Namespace && psList[m] == listerSet(pod.Namespace, psList[m].Name) && selects(psList[m], pod)
+//@     invariant [C16] complete: forall k int :: {list[k]} 0 <= k && k < i && selects(list[k], pod) ==> (exists m int :: {psList[m]} 0 <= m && m < len(psList) && psList[m] == list[k])
+
+//@ func statefulSetLister.StatefulSets
+//@   trusted "generated accessor returning the namespace lister"
+//@   pure
+//@   ensures result != nil && listerNs(result) == namespace
